@@ -122,9 +122,23 @@ CHECKS['C15'] = {
                  'against a reference pivot',
 }
 
+CHECKS['C07'] = {
+    'text': 'Bounded symbolic model checking of result shape and naming: queries with 1-3 visible targets and hidden '
+            'GROUP BY / HAVING / ORDER BY helpers over symbolic 2-row tables (description length and names, row length, '
+            'visible cells against the reference), SELECT * on every table kind and on subqueries (including histories '
+            'of differently shaped subqueries), and the naming rule (alias / lower-cased column / exact source text '
+            'that parses back) over expression texts with enumerated paddings, comments, attribute, subscript and '
+            'placeholder targets.',
+    'design_ref': 'DESIGN.md section 5, C07',
+    'note': _COMMON_NOTE + ' The naming conditions are enumeration (concrete texts chosen by selectors); the solver '
+            'reasons about the row data of the shape conditions.',
+    'technique': 'symbolic execution (CrossHair/z3) of compiler target handling and execute_select projection against '
+                 'a reference interpreter',
+}
+
 NOT_APPLICABLE = {
     pid: 'check under construction in this session; not claimed yet'
-    for pid in [ 'C04', 'C05', 'C06', 'C07', 'C11', 'C12', 'C13',
+    for pid in [ 'C04', 'C05', 'C06', 'C11', 'C12', 'C13',
                 'C14', 'C16', 'C17', 'C18', 'C19', 'C20']
 }
 
